@@ -5,7 +5,7 @@ from common import enc_f, dec_f, close, rng
 import mechrun
 
 LEAN_MODULE = 'PGM.Properties.C05'
-LEAN_EXTRA = ['PGM.Properties.C05B', 'PGM.Properties.C05S', 'PGM.Properties.C05E']
+LEAN_EXTRA = ['PGM.Properties.C05B', 'PGM.Properties.C05S', 'PGM.Properties.C05E', 'PGM.Properties.C05L']   # C05L: the loop bounds of the C05E ledgers, from the regenerated control flow (py2flow)
 NEEDS_GENERATED = True
 TRANSLATORS = ('py2lean', 'py2flow', 'py2sel')   # py2sel: the selection sites (score functions, declared sensitivities, exponential mechanisms) of the four mechanisms -> Generated/SelectG.lean; C05S proves that the declared sensitivity bounds the score change and the per-selection cost
 TRUSTED = ['Lean 4.33 kernel', 'axioms: propext, Classical.choice, Quot.sound',
